@@ -16,7 +16,10 @@ EXTENDS Tags, Json, IOUtils, SequencesExt
 
 CONSTANTS Nums, Lens, Nums3, Lens3, MaxStr, Alpha, MaxAlpha, MaxWord, CtxA, CtxB, EmitStr, EmitAlpha
 VARIABLE c
-Next == UNCHANGED c
+\* TLC evaluates initial states (and the invariants on them) in one thread; the case sets are therefore generated
+\* by Next from a small Init -- a tree of prefixes, or NChains arithmetic progressions over record indices -- so that
+\* the workers share the evaluation.  Every state is one case.
+NChains == 64
 
 AsSeq(f) == [i \in 1..Len(f) |-> f[i]]
 Strings(S, n) == UNION {[1..k -> S] : k \in 0..n}
@@ -30,8 +33,9 @@ GridTags(nums, lens) ==
     \cup {Tag(cl, n, 0, <<>>) : cl \in {OPN, CLS}, n \in nums}
 G2 == GridTags(Nums, Lens)
 G3 == GridTags(Nums3, Lens3)
-InitGrid == \/ \E k \in 0..2 : c \in [1..k -> G2]
-            \/ c \in [1..3 -> G3]
+InitGrid == c = <<>>
+NextGrid == \/ Len(c) < 2 /\ \E t \in G2 : c' = Append(c, t)
+            \/ Len(c) = 2 /\ c[1] \in G3 /\ c[2] \in G3 /\ \E t \in G3 : c' = Append(c, t)
 RECURSIVE SumHdrData(_)
 SumHdrData(l) == IF l = <<>> THEN 0 ELSE HdrLen(Head(l)) + Size(Head(l).data) + SumHdrData(Tail(l))
 InvGrid ==
@@ -46,8 +50,9 @@ WriteGrid ==
     ndJsonSerialize(IOEnv.OUT_FILE, [i \in 1..Len(L) |-> [l |-> AsSeq(L[i]), o |-> EncList(L[i])]])
 
 \* ---- Str ---------------------------------------------------------------------------------------------
-InitStr == \/ \E k \in 0..MaxStr : c \in [1..k -> 0..255]
-           \/ \E k \in 0..MaxAlpha : c \in [1..k -> Alpha]
+InitStr == c = <<>>
+NextStr == \/ Len(c) < MaxStr /\ \E b \in 0..255 : c' = Append(c, b)
+           \/ Len(c) < MaxAlpha /\ (\A i \in 1..Len(c) : c[i] \in Alpha) /\ \E b \in Alpha : c' = Append(c, b)
 InvStr == NoOverRead(c) /\ StableOrInvalid(c) /\ DecodedWF(c)
 Expected(s) ==
     LET d == DecList(s)
@@ -70,7 +75,8 @@ PosCode(r) == CASE r.kind = "none" -> 0 [] r.kind = "invalid" -> 1 [] r.kind = "
                 [] OTHER -> IF r.to < r.from THEN 1000 ELSE 1000 + 10 * r.from + r.to
 AnyCode(r) == IF r.ok THEN r.taken ELSE 99
 Impl == ndJsonDeserialize(IOEnv.TRACE_FILE)     \* line L+1: results for all words of length L, by word index
-InitWord == \E k \in 0..MaxWord : c \in [1..k -> 0..5]
+InitWord == c = <<>>
+NextWord == Len(c) < MaxWord /\ \E b \in 0..5 : c' = Append(c, b)
 OtherCtx == CHOOSE n \in 0..254 : n # CtxA /\ n # CtxB
 InvWord ==
     LET l == WordOf(c)
@@ -97,7 +103,8 @@ ImplWord ==
 \*   {id, k: "enc", l: tags, o: octets}            TagList(l).encode gave o
 \* one verdict is printed per disagreeing record; the run never halts on them
 Recs == ndJsonDeserialize(IOEnv.TRACE_FILE)
-InitRec == c \in 1..Len(Recs)
+InitRec == c \in 1..NChains /\ c <= Len(Recs)
+NextRec == c + NChains <= Len(Recs) /\ c' = c + NChains
 Small(x) == IF Len(x) <= 80 THEN x ELSE <<>>
 ImplRec ==
     LET r == Recs[c] IN
